@@ -10,7 +10,7 @@ from vlib import files, gen, oracle
 
 ID = "C13"
 RULE = ("case = (structure: isolated atom / two spheres at controlled separation / random cluster of 3-40 atoms / perturbed protein fragment "
-        "(bpti, 20-120 atoms), 1-4 frames of different conformations, n_sphere_points in {1,2,17,100,960}, probe_radius in [0,0.3], "
+        "(bpti, 20-120 atoms) / crowded ball of 530-800 atoms with a probe of 0.5-0.8 nm (every sphere overlapped by > 512 others), 1-4 frames of different conformations, n_sphere_points in {1,2,17,100,960}, probe_radius in [0,0.3], "
         "optional change_radii, mode atom/residue, atom_indices subset (none, proper subset, whole residue, single atom)); oracle = float64 "
         "Shrake-Rupley on the documented golden-section spiral evaluated in single precision, bracketing each atom's count by the points "
         "within 1e-5 nm of a neighbour's surface; closed forms 4*pi*(r+p)^2 and the two-sphere cap formula within quadrature error; "
@@ -68,6 +68,10 @@ def strategy(draw, tier="quick"):
         case["n"] = draw(st.integers(20, 120))
         if case["npts"] == 960:
             case["n"] = min(case["n"], 50)
+    if draw(st.integers(0, 29)) == 0:
+        # a crowded system with a large probe: hundreds of atoms (more than 256 / 512) overlap every expanded sphere
+        case.update(kind="crowded", n=draw(st.integers(530, 800)), probe=draw(st.sampled_from([0.5, 0.8])),
+                    npts=draw(st.sampled_from([17, 100])), nf=draw(st.integers(1, 2)), change=None)
     return case
 
 
@@ -116,6 +120,12 @@ def build(case):
                 u = rng.normal(size=3)
                 u /= np.linalg.norm(u)
                 x = np.array([np.zeros(3), u * case["sep"] * (1 + 0.1 * f)]) + rng.normal(0, 1, 3)
+            elif kind == "crowded":
+                # jittered cubic grid (spacing 0.12 nm, jitter 0.02 nm) cut to the n points nearest the origin
+                g = np.arange(-7, 8) * 0.12
+                G = np.array(np.meshgrid(g, g, g, indexing="ij")).reshape(3, -1).T
+                G = G[np.argsort((G * G).sum(1), kind="stable")[:n]]
+                x = G + rng.uniform(-0.02, 0.02, G.shape)
             else:
                 # random packing with a minimum separation of 0.08 nm
                 pts = []
